@@ -63,7 +63,7 @@ Inductive expr :=
 | Py (p : pyexpr)
 | Apply (a b : expr) (apply_left : bool)
 | Where (e pred : expr)
-| Let (x : nat) (e body : expr)
+| Let (x : nat) (shadows : bool) (e body : expr)   (* shadows: the translator found x already bound in the static scope *)
 | Class (cls : nat) (members : list (option nat * bool * expr))    (* name, is a constructor field, expression *)
 | OpTable (prefixes : option expr) (operands : expr) (postfixes infixes : option expr)
 | RefL (x : nat)                                        (* a local name used as a parser *)
@@ -89,7 +89,7 @@ Fixpoint always (e : expr) : bool :=
   | Py _ => true
   | Apply a b _ => always a && always b
   | Where _ _ => false
-  | Let _ a b => always a && always b
+  | Let _ _ a b => always a && always b
   | Class _ ms => (fix all (l : list (option nat * bool * expr)) : bool :=
                      match l with [] => true | (_, _, e) :: l' => always e && all l' end) ms
   | OpTable _ o _ _ => always o
@@ -110,7 +110,7 @@ Fixpoint partial (e : expr) : bool :=
   | Py _ => false
   | Apply a b _ => negb (always a && always b)
   | Where _ _ => true
-  | Let _ a b => negb (always a && always b)
+  | Let _ _ a b => negb (always a && always b)
   | Class _ ms => negb ((fix all (l : list (option nat * bool * expr)) : bool :=
                      match l with [] => true | (_, _, e) :: l' => always e && all l' end) ms)
   | OpTable _ o _ _ => negb (always o) && partial o
@@ -345,17 +345,32 @@ Definition eval_py (en : env) (p : pyexpr) : option value :=
   | PSucc x => match lookup x en with Some (VInt n) => Some (VInt (S n)) | _ => None end
   end.
 
+Fixpoint lookup_all (xs : list nat) (en : env) : option (list value) :=
+  match xs with
+  | [] => Some []
+  | x :: r => match lookup x en, lookup_all r en with Some v, Some vs => Some (v :: vs) | _, _ => None end
+  end.
+(* a member contributes a constructor argument iff it is named and not omitted *)
+Definition field_name (name : option nat) (isfield : bool) : option nat :=
+  match name with Some x => if isfield then Some x else None | None => None end.
+
 Section ClassLoop.
 Variable ex : expr -> st -> out.
-(* Seq with names, constructor and parse info (seq.py:31-54, class_.py:59-69) *)
-Fixpoint class_loop (cls : nat) (start : nat) (ms : list (option nat * bool * expr)) (s : st) (items : list value) : out :=
+(* Seq with names, constructor and parse info (seq.py:31-54, class_.py:59-69).  Every
+   named member is assigned to the Python local of that name; the constructor call
+   C(f1, f2, ...) reads those LOCALS when all members have matched (fields: the
+   field names so far, newest first). *)
+Fixpoint class_loop (cls : nat) (start : nat) (ms : list (option nat * bool * expr)) (s : st) (fields : list nat) : out :=
   match ms with
-  | [] => Done (upd s (status s) (VObj cls (rev items) (start, pos s)) (pos s))
+  | [] => match lookup_all (rev fields) (locals s) with
+          | Some vs => Done (upd s (status s) (VObj cls vs (start, pos s)) (pos s))
+          | None => Stuck 30
+          end
   | (name, isfield, e) :: ms' =>
     bind (ex e s) (fun s1 =>
       if always e || status s1 then
         let s2 := match name with Some x => bindl s1 x (result s1) | None => s1 end in
-        class_loop cls start ms' s2 (if isfield then result s1 :: items else items)
+        class_loop cls start ms' s2 (match field_name name isfield with Some x => x :: fields | None => fields end)
       else Done s1)
   end.
 End ClassLoop.
@@ -670,9 +685,19 @@ Fixpoint exec (n : nat) (e : expr) (s : st) : out :=
                 end
               else Done s2)
           else Done s1)
-    | Let x e body =>
+    (* let.py: a let that shadows a name of the enclosing scope saves the outer value
+       before the assignment and restores it after the body (also when the body fails) *)
+    | Let x sh e body =>
         bind (exec n e s) (fun s1 =>
-          if always e || status s1 then exec n body (bindl s1 x (result s1)) else Done s1)
+          if always e || status s1 then
+            let saved := lookup x (locals s1) in
+            bind (exec n body (bindl s1 x (result s1))) (fun s2 =>
+              if sh then match saved with
+                         | Some old => Done (bindl s2 x old)
+                         | None => Stuck 31           (* UnboundLocalError *)
+                         end
+              else Done s2)
+          else Done s1)
     | Class cls ms => match ms with
                       | [] => Done (upd s true (VObj cls [] (pos s, pos s)) (pos s))
                       | _ => class_loop (exec n) cls (pos s) ms s []
